@@ -164,6 +164,8 @@ def check_items(prop, items, seed=0, do_search=True, per=6):
             it.status = "known:S16"
         elif ideal_ok is False and s10:
             it.status = "known:S10"
+        elif ideal_ok is False and it.harvest and "edges" in it.harvest and bpexport.s27_region(it.bpj, it.harvest):
+            it.status = "known:S27"
         elif ideal_ok is None and False:
             pass
         else:
@@ -172,10 +174,13 @@ def check_items(prop, items, seed=0, do_search=True, per=6):
                          "partition_matches_design": _classify_wiring(it) if it.harvest and "edges" in it.harvest else None}
         if do_search and it.status == "violation" and not getattr(it, "mems", None):
             n = it.meta["entities"]
-            r = S.search_failing_input(it.id, defs_by[it.id], n, it.meta["n_inputs"], rng, S.thresholds(it.decls))
+            r = S.search_failing_input(it.id, defs_by[it.id], n, it.meta["n_inputs"], rng, S.thresholds(it.decls),
+                                        var_ids=it.meta.get("input_var_ids"))
             if r:
                 env, pairs = r
-                it.detail["failing_input"] = dict(zip(sorted(it.meta["exposed"]), env)) if False else env
+                it.detail["failing_input"] = env
+                it.detail["failing_input_by_name"] = {d[1]: env[i] for i, d in enumerate(it.decls)
+                                                      if d[0] == "in" and i < len(env)}
                 it.detail["observed_vs_expected"] = [
                     {"output": o[0], "signal": o[1], "observed": p[0], "expected": p[1]}
                     for o, p in zip(it.meta["outputs"], pairs)
@@ -196,7 +201,11 @@ def concrete_mismatch(item, env_values, prop="W"):
     item.harvest = r[2] if len(r) > 2 else None
     defs, expr, meta = S.case_for(item.id, item.decls, item.bpj, entities=item.entities)
     item.meta = meta
-    el = "[" + "; ".join(fa.zc(v) for v in env_values) + "]"
+    ids = meta.get("input_var_ids") or []
+    full = [0] * (max(ids) if ids else 0)
+    for v, x in zip(ids, env_values):
+        full[v - 1] = x
+    el = "[" + "; ".join(fa.zc(v) for v in full) + "]"
     n = meta["entities"]
     rc, outs, text = H.coq_eval(defs, [f"conc_progb bp_{item.id} {n + 3}%nat ds_{item.id} qs_{item.id} rs_{item.id} bqs_{item.id} (env_of {el})"],
                                 S.EXTRA, tag=f"w{item.id}")
